@@ -698,7 +698,13 @@ func (en *env) callStmt(call *ast.CallExpr) (TV, *node) {
 func (r *run) assumeAxiom(aen *env, ax AxiomRef) (ok bool) {
 	defer func() {
 		if x := recover(); x != nil {
-			if _, isUnsup := x.(unsupported); !isUnsup {
+			_, isUnsup := x.(unsupported)
+			// an axiom over a specification function declared with the sorts of the other arithmetic mode
+			// (bit-vector arguments evaluated where integers are mathematical, or the reverse) does not apply
+			// to this function: the application is ill-sorted here
+			msg, isStr := x.(string)
+			illSorted := isStr && strings.HasPrefix(msg, "smt.App ") && strings.Contains(msg, " has sort ")
+			if !isUnsup && !illSorted {
 				panic(x)
 			}
 			ok = false
